@@ -34,23 +34,28 @@ import (
 var clusterSeq uint64
 
 type hostRec struct {
-	mu         sync.Mutex
-	id         int
-	execShards uint64
-	events     []event
-	batch      uint64
-	syncEvents int // Q and P events so far (crash boundaries)
-	crashAt    int // crash when syncEvents reaches this value; <0 = never
-	crashed    bool
-	crashedC   chan struct{}
-	fs         *gvfs.MemFS
-	saveDelay  time.Duration
-	mon        map[key]*repState // live shadow, for the crash comparison
-	inflight   map[uint64][]upd  // worker -> updates inside SaveRaftState right now
-	cut        map[key]upd       // updates that were inside SaveRaftState at the crash instant
-	holdArmed  bool          // the next SaveRaftState with entries waits before it writes
-	holdC      chan struct{} // closed when that save is being held
-	releaseC   chan struct{} // closed to let it go on (or to drop it when the power is gone)
+	mu           sync.Mutex
+	id           int
+	execShards   uint64
+	events       []event
+	batch        uint64
+	syncEvents   int // Q and P events so far (crash boundaries)
+	crashAt      int // crash when syncEvents reaches this value; <0 = never
+	crashed      bool
+	crashedC     chan struct{}
+	fs           *gvfs.MemFS
+	saveDelay    time.Duration
+	mon          map[key]*repState // live shadow, for the crash comparison
+	inflight     map[uint64][]upd  // worker -> updates inside SaveRaftState right now
+	cut          map[key]upd       // updates that were inside SaveRaftState at the crash instant
+	holdArmed    bool              // the next SaveRaftState with entries waits before it writes
+	holdC        chan struct{}     // closed when that save is being held
+	releaseC     chan struct{}     // closed to let it go on (or to drop it when the power is gone)
+	fsCrashAt    int               // crash at this file system operation counted inside SaveRaftState spans; <0 = never
+	fsOps        int
+	dropPer1000  int // wire: probability of losing a message batch
+	delayPer1000 int // wire: probability of delaying a message batch
+	rnd          *vh.Rand
 }
 
 func (h *hostRec) setInflight(worker uint64, uds []pb.Update) {
@@ -125,6 +130,42 @@ func (h *hostRec) persisted(uds []pb.Update, worker uint64) {
 		h.rep(e.k).step(e)
 	}
 	h.boundary()
+}
+
+// ---- file system wrapper: a power cut between any two file system operations of a save ----
+
+// The host's file system is lni/vfs ErrorFS (the only wrapper the Pebble store accepts) around
+// the strict MemFS, with the recorder as its injector: it never injects an error, it counts the
+// mutating operations the host performs while a SaveRaftState is in progress and cuts the power
+// right before a chosen one: everything that was not fsynced before that instant is lost
+// (SetIgnoreSyncs), later output is dropped.
+func (h *hostRec) MaybeError(op gvfs.Op) error {
+	if op != gvfs.OpRead {
+		h.fsOp()
+	}
+	return nil
+}
+
+func (h *hostRec) fsOp() {
+	h.mu.Lock()
+	defer h.mu.Unlock()
+	if h.crashed || h.fsCrashAt < 0 || len(h.inflight) == 0 {
+		return
+	}
+	h.fsOps++
+	if h.fsOps < h.fsCrashAt {
+		return
+	}
+	h.crashed = true
+	h.fs.SetIgnoreSyncs(true)
+	h.events = append(h.events, event{kind: 'X'})
+	h.cut = map[key]upd{}
+	for _, l := range h.inflight {
+		for _, u := range l {
+			h.cut[key{u.shard, u.replica}] = u
+		}
+	}
+	close(h.crashedC)
 }
 
 // ---- log store wrapper ----
@@ -254,7 +295,36 @@ func (c *recConn) SendMessageBatch(b pb.MessageBatch) error {
 			return nil // past the crash instant: nothing leaves the host
 		}
 	}
+	// an unreliable network: the batch left the host (recorded above) and may be lost or late
+	switch c.h.wireFault() {
+	case 1:
+		return nil
+	case 2:
+		time.Sleep(time.Duration(1+c.h.wireDelay()) * time.Millisecond)
+	}
 	return c.IConnection.SendMessageBatch(b)
+}
+
+func (h *hostRec) wireFault() int {
+	h.mu.Lock()
+	defer h.mu.Unlock()
+	if h.rnd == nil {
+		return 0
+	}
+	x := h.rnd.Intn(1000)
+	if x < h.dropPer1000 {
+		return 1
+	}
+	if x < h.dropPer1000+h.delayPer1000 {
+		return 2
+	}
+	return 0
+}
+
+func (h *hostRec) wireDelay() int {
+	h.mu.Lock()
+	defer h.mu.Unlock()
+	return h.rnd.Intn(15)
 }
 
 type recTransport struct {
@@ -337,20 +407,24 @@ type host struct {
 }
 
 type cluster struct {
-	tag        string
-	useTan     bool
-	execShards uint64
-	shards     []uint64
-	hosts      []*host
-	members    map[uint64]dragonboat.Target
-	rnd        *vh.Rand
-	completed  map[uint64][]uint64 // shard -> ids of proposals reported Completed
-	compactionOverhead uint64
-	notifyCommit bool
-	beforeStartReplicas func() // called by restartHost after the store was read back
-	nextID     uint64
-	notes      map[string]int
-	mu         sync.Mutex
+	tag                       string
+	useTan                    bool
+	execShards                uint64
+	shards                    []uint64
+	hosts                     []*host
+	members                   map[uint64]dragonboat.Target
+	rnd                       *vh.Rand
+	completed                 map[uint64][]uint64 // shard -> ids of proposals reported Completed
+	compactionOverhead        uint64
+	snapshotEntries           uint64
+	notifyCommit              bool
+	checkQuorum               map[uint64]bool
+	preVote                   map[uint64]bool
+	dropPer1000, delayPer1000 int
+	beforeStartReplicas       func() // called by restartHost after the store was read back
+	nextID                    uint64
+	notes                     map[string]int
+	mu                        sync.Mutex
 }
 
 type nullLogger struct{}
@@ -389,7 +463,8 @@ func newClusterN(seed uint64, useTan bool, execShards uint64, nShards int, nHost
 	for i := 0; i < nHosts; i++ {
 		h := &host{addr: fmt.Sprintf("%s-host%d", c.tag, i+1), dir: fmt.Sprintf("/c04/host%d", i+1)}
 		h.rec = &hostRec{id: i + 1, execShards: execShards, crashAt: -1, crashedC: make(chan struct{}),
-			fs: gvfs.NewStrictMem(), saveDelay: saveDelay, mon: map[key]*repState{}, inflight: map[uint64][]upd{}}
+			fs: gvfs.NewStrictMem(), saveDelay: saveDelay, mon: map[key]*repState{}, inflight: map[uint64][]upd{}, fsCrashAt: -1,
+			rnd: vh.NewRand(seed*31 + uint64(i))}
 		c.hosts = append(c.hosts, h)
 		c.members[uint64(i+1)] = h.addr
 	}
@@ -398,6 +473,9 @@ func newClusterN(seed uint64, useTan bool, execShards uint64, nShards int, nHost
 
 func (c *cluster) startHost(i int) error {
 	h := c.hosts[i]
+	h.rec.mu.Lock()
+	h.rec.dropPer1000, h.rec.delayPer1000 = c.dropPer1000, c.delayPer1000
+	h.rec.mu.Unlock()
 	inner := hooks.DefaultLogDBFactory()
 	if c.useTan {
 		inner = hooks.TanLogDBFactory()
@@ -409,7 +487,7 @@ func (c *cluster) startHost(i int) error {
 		RTTMillisecond: 10,
 		RaftAddress:    h.addr,
 		Expert: config.ExpertConfig{
-			FS:               h.rec.fs,
+			FS:               gvfs.Wrap(h.rec.fs, h.rec),
 			LogDBFactory:     h.ldbf,
 			TransportFactory: &recTransportFactory{h: h.rec},
 			Engine: config.EngineConfig{ExecShards: c.execShards, CommitShards: 2, ApplyShards: 2,
@@ -432,8 +510,16 @@ func (c *cluster) startHost(i int) error {
 func (c *cluster) startReplicas(i int, restart bool) error {
 	h := c.hosts[i]
 	for _, s := range c.shards {
-		rc := config.Config{ReplicaID: uint64(i + 1), ShardID: s, ElectionRTT: 20, HeartbeatRTT: 4, CheckQuorum: true,
-			PreVote: s%2 == 0, CompactionOverhead: c.compactionOverhead}
+		cq, ok := c.checkQuorum[s]
+		if !ok {
+			cq = true
+		}
+		pv, ok := c.preVote[s]
+		if !ok {
+			pv = s%2 == 0
+		}
+		rc := config.Config{ReplicaID: uint64(i + 1), ShardID: s, ElectionRTT: 20, HeartbeatRTT: 4, CheckQuorum: cq,
+			PreVote: pv, CompactionOverhead: c.compactionOverhead, SnapshotEntries: c.snapshotEntries}
 		k := key{s, uint64(i + 1)}
 		rec := h.rec
 		create := func(shardID, replicaID uint64) sm.IStateMachine {
@@ -565,7 +651,7 @@ func (c *cluster) checkCompleted(timeout time.Duration) {
 		for _, id := range c.completed[s] {
 			var seen bool
 			var err error
-			for tries := 0; tries < 5; tries++ {
+			for tries := 0; tries < 12; tries++ {
 				ctx, cancel := context.WithTimeout(context.Background(), timeout)
 				var v interface{}
 				v, err = h.nh.SyncRead(ctx, s, id)
@@ -574,9 +660,13 @@ func (c *cluster) checkCompleted(timeout time.Duration) {
 					seen = v.(bool)
 					break
 				}
+				// the shard is not ready on this host yet (no leader known): wait and retry
+				time.Sleep(150 * time.Millisecond)
 			}
 			if err != nil {
+				// not verified: counted, and the run fails when nothing could be verified
 				c.note("reads_failed")
+				c.waitLeaders(3 * time.Second)
 				continue
 			}
 			c.note("reads_checked")
@@ -612,7 +702,16 @@ func (c *cluster) crashRestart(i int, within int, restartNow bool) error {
 	h := c.hosts[i]
 	r := h.rec
 	r.mu.Lock()
-	r.crashAt = r.syncEvents + 1 + c.rnd.Intn(within)
+	if c.rnd.Chance(1, 2) {
+		// between two file system operations of some SaveRaftState of this host
+		r.fsOps = 0
+		r.fsCrashAt = 1 + c.rnd.Intn(1+within/3)
+		c.mu.Lock()
+		c.notes["crash_points_inside_save_armed"]++
+		c.mu.Unlock()
+	} else {
+		r.crashAt = r.syncEvents + 1 + c.rnd.Intn(within)
+	}
 	r.mu.Unlock()
 	// keep the cluster busy so that the boundary is reached
 	done := make(chan struct{})
@@ -634,6 +733,12 @@ func (c *cluster) crashRestart(i int, within int, restartNow bool) error {
 		r.mu.Unlock()
 		c.note("crashes_forced")
 	}
+	r.mu.Lock()
+	inside := len(r.cut) > 0
+	r.mu.Unlock()
+	if inside {
+		c.note("crashes_inside_a_save")
+	}
 	<-done
 	h.nh.Close()
 	h.nh = nil
@@ -651,6 +756,7 @@ func (c *cluster) restartHost(i int) error {
 	r.mu.Lock()
 	r.crashed = false
 	r.crashAt = -1
+	r.fsCrashAt = -1
 	r.crashedC = make(chan struct{})
 	r.mu.Unlock()
 	if err := c.startHost(i); err != nil {
@@ -754,6 +860,16 @@ func liveRun(seed uint64, useTan bool, execShards uint64, tier string, saveDelay
 			}
 		}
 	}()
+	// drawn per run: election options per shard, an unreliable wire, automatic snapshots
+	c.checkQuorum, c.preVote = map[uint64]bool{}, map[uint64]bool{}
+	for _, s := range c.shards {
+		c.checkQuorum[s] = c.rnd.Chance(2, 3)
+		c.preVote[s] = c.rnd.Chance(1, 2)
+	}
+	c.dropPer1000 = []int{0, 10, 40}[c.rnd.Intn(3)]
+	c.delayPer1000 = []int{0, 30, 100}[c.rnd.Intn(3)]
+	c.snapshotEntries, c.compactionOverhead = 12, 3
+	c.notes[fmt.Sprintf("wire_drop_per_1000_%d", c.dropPer1000)]++
 	if err = c.start(); err != nil {
 		return nil, nil, err
 	}
@@ -779,6 +895,21 @@ func liveRun(seed uint64, useTan bool, execShards uint64, tier string, saveDelay
 			c.transferLeader()
 		}
 	}
+	// a lagging follower: one host is down while the others go on, snapshot and compact their
+	// logs; when it comes back it is sent a snapshot (Update.Snapshot through the real
+	// processSteps / onSnapshotSaved); its power is cut while it catches up
+	lag := c.rnd.Intn(3)
+	c.hosts[lag].nh.Close()
+	c.hosts[lag].nh = nil
+	c.propose(22, 2*time.Second)
+	if err = c.restartHost(lag); err != nil {
+		return nil, nil, err
+	}
+	if err = c.crashRestart(lag, 60, true); err != nil {
+		return nil, nil, err
+	}
+	c.waitLeaders(5 * time.Second)
+	c.propose(4, 2*time.Second)
 	// full power cut: every host crashes at its own sampled boundary, then all restart
 	for i := range c.hosts {
 		if err = c.crashRestart(i, 20, false); err != nil {
@@ -794,16 +925,23 @@ func liveRun(seed uint64, useTan bool, execShards uint64, tier string, saveDelay
 		return nil, nil, fmt.Errorf("no leader after the full restart")
 	}
 	c.checkCompleted(2 * time.Second)
+	if c.notes["reads_checked"] == 0 && c.notes["reads_failed"] > 0 {
+		return nil, nil, fmt.Errorf("none of the %d completed proposals could be re-read after the full restart", c.notes["reads_failed"])
+	}
 	c.propose(3, 2*time.Second)
 	c.close()
 	for _, h := range c.hosts {
 		h.rec.mu.Lock()
 		traces = append(traces, append([]event(nil), h.rec.events...))
+		for _, e := range h.rec.events {
+			if e.kind == 'P' && e.u.snapIndex != 0 && e.worker != 0 {
+				c.notes["snapshots_installed_on_a_follower"]++
+			}
+		}
 		h.rec.mu.Unlock()
 	}
 	return traces, c.notes, nil
 }
-
 
 // exportRun: one host, one single-replica shard with a small CompactionOverhead. Proposals, a
 // regular snapshot (recorded in the log store; compaction below it is legitimate), more
@@ -873,7 +1011,6 @@ func exportRun(seed uint64, useTan bool, partial func([]event)) (trace []event, 
 	c.close()
 	return
 }
-
 
 // notifyCommitRun: one host, one single-voter shard, NodeHostConfig.NotifyCommit = true. A
 // proposal is made while the log store holds the SaveRaftState that carries its entry. If the
